@@ -249,7 +249,7 @@ def gen_c10(rng: random.Random, tier: str) -> Plan:
             vias = [n for n in m.names if b in m.bases[n]]
             ops.append({"op": "optim", "base": b, "via": rng.choice(vias),
                         "steps": rng.randint(1, 3), "loss": rng.choice(["tanh", "tanh", "nll"]),
-                        "seed": _seed(rng)})
+                        "joint": rng.random() < 0.3, "seed": _seed(rng)})
         elif r < 0.60:
             o = {"op": "reset", "target": rng.choice(m.names), "seed": _seed(rng)}
             if faults and rng.random() < 0.3:
@@ -760,7 +760,8 @@ def gen_c12(rng: random.Random, tier: str) -> Plan:
         r = rng.random()
         if r < 0.35:
             ops.append({"op": "optim", "base": "b0", "via": "b0", "steps": rng.randint(1, 4),
-                        "loss": "nll", "seed": _seed(rng)})
+                        "loss": rng.choice(["nll", "nll", "nll_z"]), "joint": rng.random() < 0.5,
+                        "seed": _seed(rng)})
         elif r < 0.65:
             ops.append({"op": "perturb", "base": "b0", "mode": rng.choice(["add", "copy"]),
                         "scale": rng.choice(scales), "seed": _seed(rng)})
